@@ -172,9 +172,9 @@ def aim_stream_pos(cursor, qlen, target):
 class TwoPass(PropBase):
     """base histories are run once on the real crate; cases are derived from their traces"""
     base_quick = 24
-    base_thorough = 200
+    base_thorough = 120
     per_base_quick = 20
-    per_base_thorough = 120
+    per_base_thorough = 70
 
     def nbase(self):
         return self.base_quick if self.tier == "quick" else self.base_thorough
